@@ -75,7 +75,8 @@ def ann(container, target_expr, quoted_inner):
 def default_for(container):
     return {"opt": " = None", "list": " = Field(default_factory=list)", "dict": " = Field(default_factory=dict)",
             "union": " = 0", "req": "", "list2": " = Field(default_factory=list)", "dictlist": " = Field(default_factory=dict)",
-            "array": " = Field(default_factory=list)", "obj": " = Field(default_factory=dict)", "lorlist": " = 1"}[container]
+            # (under a constraint of the field, the type built before the declaration becomes the origin of the field's own Rule)
+            "array": " = Field(default_factory=list, max_length=9)", "obj": " = Field(default_factory=dict, max_length=9)", "lorlist": " = 1"}[container]
 
 
 def class_source(prog, ci, S, direct=False):
